@@ -54,7 +54,10 @@ class _SharedPrinters:
     @quiet.setter
     def quiet(self, flag):
         for p in self.objects():
-            p.quiet = bool(flag)
+            try:
+                p.quiet = bool(flag)
+            except (AttributeError, TypeError):
+                pass             # a read-only view of the real printer: the real one is in the list as well
 
 
 DEFAULT_PRINTER = _SharedPrinters()
@@ -314,7 +317,33 @@ class Paths:
         p = self.t.get(id(node))
         if p is not None:
             return ("T",) + p
-        return ("detached", type(node).__name__, str(node)[:40])
+        # not one of the two trees this session knows by identity: locate the node STRUCTURALLY, by walking up its
+        # parent links (an edit may legitimately refer to an edited copy of the first tree instead of the tree itself)
+        path = []
+        n = node
+        for _ in range(200):
+            par = getattr(n, "parent", None)
+            if par is None:
+                break
+            try:
+                kids = list(par.children())
+            except Exception:
+                kids = []
+            idx = next((i for i, k in enumerate(kids) if k is n), None)
+            if idx is None:
+                path = None
+                break
+            path.append(idx)
+            n = par
+        if path is not None:
+            if id(n) in self.t:
+                return ("T",) + self.t[id(n)] + tuple(reversed(path))
+            if id(n) in self.f:
+                return ("F",) + self.f[id(n)] + tuple(reversed(path))
+            if isinstance(n, gtree.EditedTreeNode):      # the root of an edited copy stands for the first tree's root
+                return ("F",) + tuple(reversed(path))
+        payload = getattr(node, "object", None)
+        return ("detached", type(node).__name__, repr(payload)[:40] if payload is not None else "")
 
 
 def exhaust(edit, cap=100000):
@@ -353,13 +382,11 @@ def annotations(ret, paths):
     return tuple(out)
 
 
-def _is_descriptor_cache(cls, name):
-    """An instance-dict entry that shadows a class-level descriptor of the same name (functools.cached_property
-    stores its memo that way) is a cache of a computed attribute, not something a comparison 'added' to the node."""
-    for k in cls.__mro__:
-        if name in k.__dict__:
-            return hasattr(k.__dict__[name], "__get__") and not isinstance(k.__dict__[name], type(lambda: 0))
-    return False
+# What a comparison writes on the EDITED COPIES it makes (tree.py, EditedTreeNode.__init__).  Finding one of these on a
+# node of the caller's own trees means the comparison annotated its input.  Any other instance attribute that shows up
+# (cached_property memos, `_total_size`, a public memo like `only_leaves`) is a cache: how a memo is spelled is not
+# something the fingerprint may depend on (reviewer variants C07 r2/r3, DESIGN 10.7).
+ANNOTATION_NAMES = ("removed", "inserted", "matched_to", "edit_list", "edit")
 
 
 def fingerprint(node):
@@ -378,10 +405,7 @@ def fingerprint(node):
                 rec.append((flag, n.__dict__[flag]))
         rec.append(("parent_is_container", parent is None or n.parent is parent))
         rec.append(("edited", isinstance(n, gtree.EditedTreeNode)))
-        # public instance attributes a comparison must not add or drop (edit / removed / inserted / matched_to ...);
-        # private ones are memo fields (_total_size, an instance-level _parent = None left by make_edited)
-        rec.append(tuple(sorted(k for k in getattr(n, "__dict__", {})
-                                if not k.startswith("_") and not _is_descriptor_cache(type(n), k))))
+        rec.append(tuple(k for k in ANNOTATION_NAMES if k in getattr(n, "__dict__", {})))
         out.append(tuple(rec))
         try:
             kids = list(n.children())
@@ -413,6 +437,7 @@ class Monitor:
         self.multi = 0
         self.site_of = {}        # id(object) -> role-based site name (robust against class renames), e.g. the
         #                          container of a matcher / search session; everything else is named by its class
+        self.default_site = None  # container sessions: every monitored object belongs to the container under test
         self.active = set()      # ids of objects with a tighten_bounds() call in progress
         self.known = set()       # (kind, site) of listed findings
         self.known_hit = None
@@ -425,7 +450,7 @@ class Monitor:
         return self.rng.random() < self.p
 
     def _fail(self, kind, obj, detail):
-        site = self.site_of.get(id(obj)) or type(obj).__name__
+        site = self.site_of.get(id(obj)) or self.default_site or type(obj).__name__
         if (kind, site) in self.known:
             # a listed finding must not end the session (it would mask whatever else happens in it)
             if self.known_hit is None:
@@ -522,17 +547,22 @@ def _wrap_class(cls):
 
 
 def install_monitor_wrappers():
+    """Wraps tighten_bounds of every class of the package that offers the Bounded pair (bounds + tighten_bounds).  Only
+    modules that `import graphtage` itself loaded, plus the file-type / pydiff modules, are looked at: importing
+    *every* file of the package would execute whatever scripts live there."""
     import importlib
-    import pkgutil
-    seen = []
-    for mi in pkgutil.iter_modules(graphtage.__path__):
-        if mi.name in ("__main__",):
-            continue
+    for extra in ("graphtage.pydiff", "graphtage.dataclasses", "graphtage.ast", "graphtage.csv", "graphtage.plist",
+                  "graphtage.xml", "graphtage.yaml", "graphtage.json", "graphtage.search", "graphtage.matching"):
         try:
-            mod = importlib.import_module(f"graphtage.{mi.name}")
-        except Exception:
+            importlib.import_module(extra)
+        except BaseException:      # noqa: a missing or renamed module is not the monitor's business
+            pass
+    import sys as _sys
+    seen = []
+    for modname, mod in sorted(_sys.modules.items()):
+        if mod is None or not (modname == "graphtage" or modname.startswith("graphtage.")) or modname.endswith(".__main__"):
             continue
-        for name, obj in vars(mod).items():
+        for name, obj in list(vars(mod).items()):
             # (graphtage/__init__.py rewrites __module__ of many classes to 'graphtage': do not compare it with the
             #  defining module - any class of the package that defines tighten_bounds itself is taken, once)
             if isinstance(obj, type) and str(getattr(obj, "__module__", "")).split(".")[0] == "graphtage" \
@@ -544,6 +574,8 @@ def install_monitor_wrappers():
                     continue
                 if obj.__name__.startswith("_"):
                     continue     # a private helper class is not one of the bounded objects the engine *exposes*
+                if not callable(getattr(obj, "bounds", None)):
+                    continue     # a step helper without bounds() is not a Bounded object
                 _wrap_class(obj)
                 seen.append(obj.__name__)
     return sorted(set(seen))
@@ -655,8 +687,11 @@ class Session:
             self.t_since_b[a.idx] = n
             if n >= 2 and isinstance(e, CompoundEdit):
                 self.bump("probe.compound_tightened_twice_without_bounds_read")
-            if getattr(e, "edit_matrix", 0) is None:
-                self.bump("probe.tighten_after_cleanup")
+            try:                                   # a reach probe reads a private attribute: it must never raise
+                if getattr(e, "edit_matrix", 0) is None:
+                    self.bump("probe.tighten_after_cleanup")
+            except Exception:
+                pass
             if isinstance(e, CompoundEdit):
                 self.bump("compound_T")
             self.log.add(self.steps, "T", tag, r)
